@@ -30,10 +30,11 @@ def _table(ctx, body, o, recv_term, names):
         if gi:
             return names.get(gi[1])
     if isinstance(t, tuple) and t and t[0] == "call" and t[1].endswith(("::read", "::write", "::lock")) and t[3]:
-        v = var_name(t[3][0])
-        if v == "self.streams":
+        v = var_name(t[3][0]) or ""
+        # `self.streams` inside Session; `session.streams` / `(*arc).streams` where a Session method was spliced into a caller
+        if v == "self.streams" or v.endswith(".streams"):
             return "Session.streams"
-        if v == "self.stream_receive_tx":
+        if v == "self.stream_receive_tx" or v.endswith(".stream_receive_tx"):
             return "Session.stream_receive_tx"
     return None
 
